@@ -1,5 +1,5 @@
-(* The code as shipped ([shipped], and every variant that lacks one of the four proposed fixes)
-   violates C17: concrete witnesses, by evaluation.  Each witness below was replayed on the real
+(* The code as shipped ([shipped]), the code as committed ([committed]) and every variant that
+   lacks one of the fixes violate C17: concrete witnesses, by evaluation.  Each witness below was replayed on the real
    code through the `glob` / `copyright` streams (docs/cones/C17.md, known_findings.jsonl). *)
 From V.model Require Import Base Deb822Lex Deb822Parse Glob Copyright CopyrightSpec.
 From V.proofs Require Import GlobP CopyrightP.
@@ -36,7 +36,20 @@ Module Wit.
      [(L "Files", L "*"); (L "Copyright", L "c"); (L "License", L "MIT")];
      [(L "License", two_lines (L "MIT") (L "real text"))]].
 
-  (* the same four as texts, through the deb822 reader *)
+  (* an invalid escape in a later paragraph: "Files: zzz\" (audit item 1) *)
+  Definition d_bad : doc :=
+    [header;
+     [(L "Files", L "*"); (L "Copyright", L "c"); (L "License", two_lines (L "MIT") (L "text"))];
+     [(L "Files", L "zzz\"); (L "Copyright", L "c"); (L "License", L "GPL")]].
+
+  (* a field name in another case: "files: *" (audit item 2) *)
+  Definition d_case : doc :=
+    [header;
+     [(L "files", L "*"); (L "Copyright", L "c"); (L "License", two_lines (L "MIT") (L "text"))]].
+  Definition t_case : str := L "format: x
+".
+
+  (* the same as texts, through the deb822 reader *)
   Definition t_ws : str := L "Format: x
 
 Files: a/* b/*
@@ -47,10 +60,12 @@ End Wit.
 Import Wit.
 
 (* one fix missing at a time *)
-Definition no_dotall : variant := mk_variant false true true true.
-Definition no_lossy_ws : variant := mk_variant true false true true.
-Definition no_lp_name : variant := mk_variant true true false true.
-Definition no_skip_header : variant := mk_variant true true true false.
+Definition no_dotall : variant := mk_variant false true true true true true.
+Definition no_lossy_ws : variant := mk_variant true false true true true true.
+Definition no_lp_name : variant := mk_variant true true false true true true.
+Definition no_skip_header : variant := mk_variant true true true false true true.
+Definition no_lenient : variant := mk_variant true true true true false true.
+Definition no_lossy_path : variant := mk_variant true true true true true false.
 
 Lemma q_matches : glob_matches g_q p_lf.
 Proof.
@@ -86,12 +101,9 @@ Qed.
 Lemma lookup_clause_no_lp_name_refuted : ~ lookup_clause no_lp_name.
 Proof.
   intro H.
-  assert (V : doc_valid d_name).
-  { intros p g Hp Hg. vm_compute in Hp. destruct Hp as [<-|[]]. vm_compute in Hg.
-    destruct Hg as [<-|[]]. reflexivity. }
-  destruct (H d_name p_f V) as [r [ans [Er [_ [Ea Hl]]]]].
+  destruct (H d_name p_f eq_refl) as [r [ans [Er [_ [Ea Hl]]]]].
   vm_compute in Er. injection Er as <-. vm_compute in Ea. injection Ea as <-.
-  cbn [licence_answer] in Hl. vm_compute in Hl.
+  unfold licence_answer in Hl. cbn [licence_answer_w] in Hl. vm_compute in Hl.
   destruct Hl as [n [q [En [Hq Ha]]]]. injection En as <-.
   destruct q as [q'|].
   - (* the first paragraph named X is the name-only one, whose licence is Name "X" *)
@@ -136,15 +148,67 @@ Proof.
   split; [vm_compute; auto|]. split; [eexists; vm_compute; reflexivity|vm_compute; reflexivity].
 Qed.
 
-(* finding non-utf8-path: with a path that is not valid UTF-8 both readers panic as soon as a
-   Files paragraph has a pattern to try (and answer "no match" when none has) *)
+(* audit item 1: without C17-invalid-glob-escape a pattern with an invalid escape in ANY Files
+   paragraph makes find_files / find_license_for_file of BOTH readers panic for EVERY path that
+   no earlier pattern of that paragraph matches — here although "*" in the first paragraph does *)
+Lemma invalid_escape_witness :
+  exact_case d_bad /\ ~ doc_valid d_bad /\
+  ll_find_files committed d_bad p_f = Panic 2%N /\
+  ll_find_license_for_file committed d_bad p_f = Panic 2%N /\
+  (exists c, ly_of_doc committed d_bad = Ok c /\ ly_find_files committed c p_f = Panic 2%N /\
+             ly_find_license_for_file committed c p_f = Panic 2%N) /\
+  (* with the fix the first paragraph answers *)
+  (exists p, ll_find_files fixed d_bad p_f = Ok (Some (0, p))) /\
+  ll_find_license_for_file fixed d_bad p_f = Ok (Some (LNamed [77; 73; 84]%N [116; 101; 120; 116]%N)).
+Proof.
+  split; [reflexivity|]. split.
+  { intro V. specialize (V (nth 2 d_bad []) [122; 122; 122; 92]%N).
+    assert (E : valid_escapes [122; 122; 122; 92]%N = false) by reflexivity.
+    rewrite V in E; [discriminate| |]; vm_compute; auto. }
+  split; [vm_compute; reflexivity|]. split; [vm_compute; reflexivity|].
+  split; [eexists; split; [vm_compute; reflexivity|split; vm_compute; reflexivity]|].
+  split; [eexists; vm_compute; reflexivity|vm_compute; reflexivity].
+Qed.
+
+Lemma lookup_clause_committed_refuted : ~ lookup_clause committed /\ ~ lookup_clause no_lenient.
+Proof.
+  split; intro H; destruct (H d_bad p_f eq_refl) as [r [ans [Er _]]]; vm_compute in Er; discriminate.
+Qed.
+
+(* audit item 2: field names are compared exactly by the code.  "files: *" is a Files paragraph
+   (Policy 5.1) that no reader sees: find_files answers None although the paragraph matches, and
+   the paragraph is listed as a stand-alone licence paragraph; "format: x" is refused as not
+   machine readable although it starts with a Format field. *)
+Lemma field_name_case_witness :
+  Known_field_name_case d_case /\
+  ll_find_files fixed d_case p_f = Ok None /\
+  ~ is_last_such (fun p => para_matches p p_f) (files_paragraphs d_case) None /\
+  List.length (ll_iter_licenses fixed d_case) = 1 /\ licence_paragraphs d_case = [] /\
+  starts_with_format_field t_case /\ ll_from_str t_case = Err 2%N /\ ly_from_str fixed t_case = Err 2%N.
+Proof.
+  split; [reflexivity|]. split; [vm_compute; reflexivity|]. split.
+  { intro H. apply (H (nth 1 d_case [])); [vm_compute; auto|].
+    exists [42%N]. split; [vm_compute; auto|]. apply (gm_star [] [102%N] []). constructor. }
+  split; [reflexivity|]. split; [reflexivity|]. split.
+  { exists [102; 111; 114; 109; 97; 116]%N, [32; 120; 10]%N. split; reflexivity. }
+  split; vm_compute; reflexivity.
+Qed.
+
+(* finding non-utf8-path (before C17-non-utf8-path): with a path that is not valid UTF-8 both
+   readers panic as soon as a Files paragraph has a (valid) pattern to try, and answer "no
+   match" when none has; with the fix the path is read through to_string_lossy() and these
+   functions are not used *)
 Lemma nonutf8_path_witness :
-  (exists c, ly_of_doc fixed d_ws = Ok c /\ ly_find_files_nonutf8 c = Panic 13%N /\
-             ly_find_license_for_file_nonutf8 c = Panic 13%N) /\
-  ll_find_files_nonutf8 fixed d_ws = Panic 13%N /\
-  ll_find_license_for_file_nonutf8 fixed d_ws = Panic 13%N /\
-  ll_find_files_nonutf8 fixed [header; [(k_Files, []); (k_License, [88%N])]] = Ok None.
+  (exists c, ly_of_doc committed d_ws = Ok c /\ ly_find_files_nonutf8 committed c = Panic 13%N /\
+             ly_find_license_for_file_nonutf8 committed c = Panic 13%N) /\
+  ll_find_files_nonutf8 committed d_ws = Panic 13%N /\
+  ll_find_license_for_file_nonutf8 committed d_ws = Panic 13%N /\
+  ll_find_files_nonutf8 no_lossy_path d_ws = Panic 13%N /\
+  ll_find_files_nonutf8 committed [header; [(k_Files, []); (k_License, [88%N])]] = Ok None.
 Proof.
   split; [eexists; split; [vm_compute; reflexivity|split; vm_compute; reflexivity]|].
   repeat split; vm_compute; reflexivity.
 Qed.
+
+Theorem C17_committed_refuted_all : ~ C17_full committed.
+Proof. intros [_ [H _]]. exact (proj1 lookup_clause_committed_refuted H). Qed.
